@@ -168,7 +168,20 @@ func runC12(r *ev.Run) {
 		}
 		entryRemovals := 0
 		var firstInserted uint32
+		var held *heldSearch
 		probe := func() {
+			// a long-lived search object (efSearch beyond the regime), executed while the index changes under it
+			if held == nil || rng.IntN(8) == 0 {
+				held = newHeldSearch(func() comet.VectorSearch { return idx.NewSearch().WithEfSearch(2*M + 50) })
+				hq := vg.query()
+				held.step("WithQuery", func(x comet.VectorSearch) comet.VectorSearch { return x.WithQuery(cloneF32(hq)) })
+			} else {
+				heldSearchStep(rng, held, vg.query(), m.liveIDs(), len(m.live))
+			}
+			if !held.compare(rep, "hnsw") {
+				held = nil
+			}
+			r.Count("probes:held-search-object", 1)
 			g := comet.VerifHNSWGraph(idx)
 			entryDeleted := false
 			for _, d := range g.Deleted {
